@@ -657,6 +657,13 @@ impl<'tcx> Cx<'tcx> {
             let sig = tcx.fn_sig(did).instantiate_identity().skip_norm_wip();
             o.push(("sig", s(with_no_trimmed_paths!(format!("{}", sig)))));
             o.push(("unsafe_fn", J::Bool(sig.safety().is_unsafe())));
+            // names of the generic parameters, in the order call sites list their generic arguments
+            let g = tcx.generics_of(did);
+            let mut names = Vec::new();
+            for i in 0..g.count() {
+                names.push(s(g.param_at(i, tcx).name.as_str()));
+            }
+            o.push(("generics", J::Arr(names)));
         }
         // enclosing item chain
         let mut parent = tcx.opt_parent(did);
